@@ -72,6 +72,7 @@ def run(repo, rep, tier):
             grow[m] = attr
     loop_summary = make_loop_summary(repo, rep, grow)
 
+    check_a1_alphabet(repo, rep)
     # ---- R1 routing + R2 bounds for Table.cell
     cell = repo.func("document.py", "Table.cell")
     ga = GuardAnalysis(cell, env=env, call_writes=cw, loop_summary=loop_summary)
@@ -228,6 +229,15 @@ def run(repo, rep, tier):
                    key=f"C11.R4@{m}:{axis}:{type(node).__name__}:hi")
             rep.ob("C11.R4", node, f"Table.{m}: `{U(node)}` lower end >= 0", ok_lo,
                    "" if ok_lo else f"nothing establishes {U(lo)} >= 0 (facts: {facts})", key=f"C11.R4@{m}:{axis}:{type(node).__name__}:lo")
+            # both ends are positions of the table: the lower end is < size and the inclusive upper end is >= 0
+            ok_lo_hi = facts is not None and facts.entails(size - ll - Lin(1))
+            ok_hi_lo = facts is not None and facts.entails(hl - Lin(1))
+            rep.ob("C11.R4", node, f"Table.{m}: `{U(node)}` lower end is a position of the table", ok_lo_hi,
+                   "" if ok_lo_hi else f"nothing establishes {U(lo)} <= self.num_{axis}s - 1: a start one past the end yields nothing instead of raising IndexError (facts: {facts})",
+                   key=f"C11.R4@{m}:{axis}:{type(node).__name__}:lo-in-table")
+            rep.ob("C11.R4", node, f"Table.{m}: `{U(node)}` inclusive upper end >= 0", ok_hi_lo,
+                   "" if ok_hi_lo else f"nothing establishes {U(hi)} >= 1: a negative end is taken as a Python from-the-end index or an empty range instead of raising IndexError (facts: {facts})",
+                   key=f"C11.R4@{m}:{axis}:{type(node).__name__}:hi-nonneg")
         # out-of-range must raise IndexError
         raises = [U(r.exc) for r in body_walk(f) if isinstance(r, ast.Raise) and r.exc is not None]
         ok = len(raises) >= 4 and all("IndexError" in r for r in raises)
@@ -273,6 +283,154 @@ def run(repo, rep, tier):
     rep.floor("C11.R5", 8)
 
 
+_RE_FLAGS = {"I": 2, "IGNORECASE": 2, "A": 256, "ASCII": 256, "U": 32, "UNICODE": 32, "X": 64, "VERBOSE": 64}
+
+
+def _re_flags(node) -> int:
+    if isinstance(node, ast.BinOp) and isinstance(node.op, ast.BitOr):
+        return _re_flags(node.left) | _re_flags(node.right)
+    if isinstance(node, ast.Attribute) and U(node.value) == "re" and node.attr in _RE_FLAGS:
+        return _RE_FLAGS[node.attr]
+    v = try_const(node)
+    if isinstance(v, int):
+        return v
+    raise AnalysisError(f"regex flags `{U(node)}` not understood")
+
+
+def _group_alphabets(pattern: str, flags: int):
+    """group number -> set of code points a character of the group may be ('digit' for the \\d category)."""
+    import re._constants as rc
+    import re._parser as rp
+
+    parsed = rp.parse(pattern, flags)
+    glob = parsed.state.flags
+    out = {}
+
+    def chars(items, fl):
+        acc = set()
+        for op, av in items:
+            if op == rc.LITERAL:
+                acc.add(av)
+            elif op == rc.IN:
+                for iop, iav in av:
+                    if iop == rc.RANGE:
+                        acc.update(range(iav[0], iav[1] + 1))
+                    elif iop == rc.LITERAL:
+                        acc.add(iav)
+                    elif iop == rc.CATEGORY and iav == rc.CATEGORY_DIGIT:
+                        acc.add("digit")
+                    else:
+                        acc.add("other")
+            elif op in (rc.MAX_REPEAT, rc.MIN_REPEAT):
+                acc |= chars(list(av[2]), fl)
+            elif op == rc.SUBPATTERN:
+                acc |= chars(list(av[3]), (fl | av[1]) & ~av[2])
+            elif op == rc.BRANCH:
+                for br in av[1]:
+                    acc |= chars(list(br), fl)
+            else:
+                acc.add("other")
+        if fl & 2:
+            acc |= {ord(chr(c).swapcase()) for c in acc if isinstance(c, int) and len(chr(c).swapcase()) == 1}
+        return acc
+
+    def top(items, fl):
+        for op, av in items:
+            if op == rc.SUBPATTERN:
+                g, add, dele, sub = av
+                f2 = (fl | add) & ~dele
+                if g is not None:
+                    out[g] = chars(list(sub), f2)
+                top(list(sub), f2)
+            elif op in (rc.MAX_REPEAT, rc.MIN_REPEAT):
+                top(list(av[2]), fl)
+            elif op == rc.BRANCH:
+                for br in av[1]:
+                    top(list(br), fl)
+
+    top(list(parsed), glob)
+    return out
+
+
+def check_a1_alphabet(repo, rep):
+    """The letters the A1 regex lets through are exactly the digits the base-26 loop can decode."""
+    fn = repo.func("xrefs.py", "xl_cell_to_rowcol")
+    param = fn.args.args[0].arg
+    m_assign = [n for n in body_walk(fn) if isinstance(n, ast.Assign) and isinstance(n.value, ast.Call)
+                and isinstance(n.value.func, ast.Attribute) and n.value.func.attr in ("match", "fullmatch", "search")]
+    if len(m_assign) != 1:
+        raise AnalysisError("xl_cell_to_rowcol: single regex match not found")
+    mcall = m_assign[0].value
+    mvar = U(m_assign[0].targets[0])
+    subject_upper = ".upper()" in U(mcall.args[0]) if mcall.args else False
+    rx_name = U(mcall.func.value)
+    rx = repo.module_assign("xrefs.py", rx_name)
+    if not (isinstance(rx, ast.Call) and U(rx.func) == "re.compile" and isinstance(try_const(rx.args[0]), str)):
+        raise AnalysisError(f"xrefs.py: {rx_name} is not re.compile(<literal>)")
+    flags = 0
+    if len(rx.args) > 1:
+        flags |= _re_flags(rx.args[1])
+    for kw in rx.keywords:
+        if kw.arg == "flags":
+            flags |= _re_flags(kw.value)
+    groups = _group_alphabets(try_const(rx.args[0]), flags)
+
+    def group_of(expr):
+        """(group number, upper-cased?) of an expression that is match.group(k) possibly through one local."""
+        up = False
+        seen = 0
+        while seen < 4:
+            seen += 1
+            if isinstance(expr, ast.Call) and isinstance(expr.func, ast.Attribute) and expr.func.attr == "upper" and not expr.args:
+                up = True
+                expr = expr.func.value
+                continue
+            if isinstance(expr, ast.Call) and isinstance(expr.func, ast.Attribute) and expr.func.attr == "group" and U(expr.func.value) == mvar:
+                k = try_const(expr.args[0]) if expr.args else None
+                return (k, up) if isinstance(k, int) else (None, up)
+            if isinstance(expr, ast.Subscript) and U(expr.value) == mvar and isinstance(try_const(expr.slice), int):
+                return try_const(expr.slice), up
+            if isinstance(expr, ast.Name):
+                defs = [n for n in body_walk(fn) if isinstance(n, ast.Assign) and len(n.targets) == 1 and U(n.targets[0]) == expr.id]
+                if len(defs) != 1:
+                    return None, up
+                expr = defs[0].value
+                continue
+            return None, up
+        return None, up
+
+    # the base-26 loop
+    loops = [n for n in body_walk(fn) if isinstance(n, ast.For) and "reversed(" in U(n.iter)]
+    if len(loops) != 1:
+        raise AnalysisError("xl_cell_to_rowcol: base-26 loop not found")
+    loop = loops[0]
+    rev = [c for c in ast.walk(loop.iter) if isinstance(c, ast.Call) and call_name(c) == "reversed"][0]
+    k, up = group_of(rev.args[0])
+    ords = [c for c in ast.walk(loop) if isinstance(c, ast.Call) and call_name(c) == "ord" and c.args]
+    base = [try_const(c.args[0]) for c in ords if isinstance(try_const(c.args[0]), str)]
+    if len(base) != 1 or k is None or k not in groups:
+        raise AnalysisError("xl_cell_to_rowcol: ord(char) - ord(<letter>) over match.group(k) not recognised")
+    up = up or subject_upper or any(".upper()" in U(c.args[0]) for c in ords)
+    alpha = groups[k]
+    if up:
+        alpha = {ord(chr(c).upper()) if isinstance(c, int) and len(chr(c).upper()) == 1 else c for c in alpha}
+    lo = ord(base[0])
+    ok = all(isinstance(c, int) and lo <= c < lo + 26 for c in alpha) and len(alpha) == 26
+    extra = sorted(chr(c) if isinstance(c, int) else c for c in alpha if not (isinstance(c, int) and lo <= c < lo + 26))
+    rep.ob("C11.R1", loop, f"letters accepted by {rx_name} group {k} are the 26 digits decoded by ord(c) - ord({base[0]!r})", ok,
+           "" if ok else f"the regex also lets {extra[:8]} through (flags={flags}); the base-26 loop maps them to a column outside A..Z "
+           "so the A1 form lands on another cell than the row/column form", key="C11.R1@a1:alphabet")
+    # the row number is the digit group
+    ints = [c for c in body_walk(fn) if isinstance(c, ast.Call) and call_name(c) == "int" and c.args]
+    row_groups = [group_of(c.args[0])[0] for c in ints]
+    ok = len(row_groups) == 1 and row_groups[0] in groups and groups[row_groups[0]] <= ({"digit"} | set(range(48, 58))) and row_groups[0] != k
+    rep.ob("C11.R1", ints[0] if ints else fn, f"row number parsed from the digit group {row_groups} of {rx_name}", ok,
+           "" if ok else "int() is not applied to the digit group of the reference", key="C11.R1@a1:row-group")
+    # the match is anchored on the argument itself
+    ok = bool(mcall.args) and U(mcall.args[0]).replace(".upper()", "") == param
+    rep.ob("C11.R1", mcall, f"{rx_name} is matched against the reference `{param}`", ok, "", key="C11.R1@a1:subject")
+
+
 def check_bounds(rep, ga, sub, r_txt, c_txt, where, nrows, ncols):
     facts = ga.facts_at(sub)
     R, C = Lin(0, {r_txt: 1}), Lin(0, {c_txt: 1})
@@ -295,7 +453,14 @@ VARIANTS = [
     M("grow-loop-short", "document.py", "for _ in range(self.num_cols, col + 1):", "for _ in range(self.num_cols, col):", "C11.R2"),
     M("max-row-limit-off", "document.py", "if row >= MAX_ROW_COUNT:", "if row > MAX_ROW_COUNT:", "C11.R2"),
     M("revert-fix-or-default", "document.py", "max_row = self.num_rows - 1 if max_row is None else max_row", "max_row = max_row or self.num_rows - 1", "C11.R3", count=2),
-    M("revert-fix-inclusive-gt", "document.py", "if max_col >= self.num_cols:", "if max_col > self.num_cols:", "C11.R4", count=2),
+    M("revert-fix-iter-min-past-end", "document.py", "if min_row < 0 or min_row >= self.num_rows:", "if min_row < 0:", "C11.R4", count=2),
+    M("revert-fix-iter-negative-max", "document.py", "if max_col < 0 or max_col >= self.num_cols:", "if max_col >= self.num_cols:", "C11.R4", count=2),
+    M("revert-fix-inclusive-gt", "document.py", "if max_col < 0 or max_col >= self.num_cols:", "if max_col < 0 or max_col > self.num_cols:", "C11.R4", count=2),
+    M("a1-regex-ignorecase", "xrefs.py", 'range_parts = re.compile(r"(\\$?)([A-Z]{1,3})(\\$?)(\\d+)")', 'range_parts = re.compile(r"(\\$?)([A-Z]{1,3})(\\$?)(\\d+)", re.IGNORECASE)', "C11.R1"),
+    M("a1-regex-inline-i", "xrefs.py", 'range_parts = re.compile(r"(\\$?)([A-Z]{1,3})(\\$?)(\\d+)")', 'range_parts = re.compile(r"(?i)(\\$?)([A-Z]{1,3})(\\$?)(\\d+)")', "C11.R1"),
+    M("a1-regex-lower-class", "xrefs.py", 'range_parts = re.compile(r"(\\$?)([A-Z]{1,3})(\\$?)(\\d+)")', 'range_parts = re.compile(r"(\\$?)([A-Za-z]{1,3})(\\$?)(\\d+)")', "C11.R1"),
+    M("a1-row-from-letter-group", "xrefs.py", "    col_str = match.group(2)\n    row_str = match.group(4)\n", "    col_str = match.group(2)\n    row_str = match.group(3) or match.group(4)\n", "C11.R1"),
+    T("a1-lowercase-accepted-properly", "xrefs.py", 'range_parts = re.compile(r"(\\$?)([A-Z]{1,3})(\\$?)(\\d+)")\n', 'range_parts = re.compile(r"(\\$?)([A-Z]{1,3})(\\$?)(\\d+)", re.I)\n', more=[("xrefs.py", "    col_str = match.group(2)\n    row_str = match.group(4)\n", "    col_str = match.group(2).upper()\n    row_str = match.group(4)\n")]),
     M("tuple-form-swapped", "document.py", "(row, col) = args[0:2]", "(col, row) = args[0:2]", "C11.R1"),
     M("write-swapped-index", "document.py", "self._data[row][col] = Cell._from_value(row, col, value)", "self._data[col][row] = Cell._from_value(row, col, value)", "C11.R1"),
     M("validate-grows-before-limit", "document.py",
